@@ -192,6 +192,7 @@ class World:
         self.dropped_unresolved = []
         self.stubs = []
         self.dropped_hints = {}
+        self.lemma_twins = []
 
     # ------------------------------------------------------------------ modules
     def modules(self):
@@ -244,8 +245,13 @@ class World:
                         continue
                     f = f['file']
                 out.w(f'// file {f}\n')
-                out.w(open(os.path.join(self.dir, f)).read())
+                text = open(os.path.join(self.dir, f)).read()
+                out.w(text)
                 out.w('\n')
+                if reach:
+                    tw = self._lemma_twins(text)
+                    if tw:
+                        out.w('verus! {\n' + tw + '} // verus! (lemma reach twins)\n')
             out.w('}\n')
         out.w(self.cfg.get('root_text', ''))
         if 'type_urls' in self.cfg:
@@ -374,6 +380,40 @@ class World:
                   f'{{ reveal_strlit({lit}); reveal_strlit("/"); reveal_strlit({rust_str(pkg)}); reveal_strlit("."); reveal_strlit({rust_str(sname)}); }}\n')
         out.w('} // verus!\n}\n')
         self.generated_type_urls = n
+
+    def _lemma_twins(self, text):
+        """vacuity twins for labelled lemmas: same parameters and `requires`, `ensures false`, empty body.
+        Each must FAIL; one that verifies has contradictory hypotheses."""
+        out = []
+        for mm in re.finditer(r'//\s*\[(C\d\d\.[^\]]+)\][^\n]*\n(?:\s*(?:///[^\n]*|#\[[^\n]*\])\n)*\s*pub proof fn\s+(\w+)', text):
+            name = mm.group(2)
+            start = text.index('pub proof fn', mm.start())
+            # header up to the opening brace of the body at nesting depth 0
+            i = text.index('(', start)
+            depth = 0
+            j = i
+            while True:
+                ch = text[j]
+                if ch in '([{':
+                    depth += 1
+                elif ch in ')]}':
+                    depth -= 1
+                    if depth == 0:
+                        break
+                j += 1
+            params_end = j + 1
+            rest = text[params_end:]
+            mreq = re.match(r'\s*requires', rest)
+            if not mreq:
+                continue
+            k_ens = re.search(r'\n\s*ensures\b', rest)
+            if not k_ens:
+                continue
+            req = rest[mreq.end():k_ens.start()]
+            head = text[start:params_end].replace(f'fn {name}', f'fn {name}__reach', 1)
+            out.append(f'{head}\n    requires {req.strip().rstrip(",")},\n    ensures false,\n{{ }}\n')
+            self.lemma_twins.append(name)
+        return '\n'.join(out)
 
     def _feature_hidden(self, key):
         # contracts for modules that are not part of this feature configuration
@@ -1016,7 +1056,7 @@ def assemble(world_name, features=(), outdir=None):
     open(os.path.join(outdir, 'unit.rs'), 'wb').write(main)
     open(os.path.join(outdir, 'unit_reach.rs'), 'wb').write(reach)
     meta = {'world': world_name, 'features': sorted(features), 'fns': fmap_main, 'reach_fns': w2.fnmap,
-            'counters': counters, 'uncontracted': w.uncontracted, 'stubs': w.stubs,
+            'counters': counters, 'uncontracted': w.uncontracted, 'stubs': w.stubs, 'lemma_twins': w2.lemma_twins,
             'unit_sha256': sha(main)}
     json.dump(meta, open(os.path.join(outdir, 'map.json'), 'w'), indent=1)
     return outdir, meta
